@@ -28,6 +28,12 @@ Definition has_outer_edge (outer q : list nat) : bool :=
 Definition has_outer_point (outer q : list nat) : bool := existsb (fun p => mem p outer) q.
 Definition opt_list (o : option (list nat)) : list nat := match o with Some l => l | None => [] end.
 
+(** the rows of a radial grid are rings, inner ones first: some prefix of the rows is exactly the core
+    (in order) and the remaining rows are exactly the shell *)
+Definition rings_ok (grid : list (list nat)) (c shell : list nat) : bool :=
+  existsb (fun k => list_eqb Nat.eqb (concat (firstn k grid)) c && list_eqb Nat.eqb (concat (skipn k grid)) shell)
+          (seq 0 (S (length grid))).
+
 (** ** round sketches: name, (quads, outer-ring points, grid, core, shell) *)
 Definition sketch_entry := (string * (list (list nat) * list nat * list (list nat) * option (list nat) * list nat))%type.
 
@@ -39,7 +45,8 @@ Definition sketch_ok (e : sketch_entry) : bool :=
   && perm_of_range nf (c ++ shell)
   && forallb (fun f => has_outer_edge outer (quad_of quads f)) shell
   && forallb (fun f => negb (has_outer_point outer (quad_of quads f))) c
-  && perm_of_range nf (concat grid).
+  && perm_of_range nf (concat grid)
+  && rings_ok grid c shell.
 
 (** ** round shapes lofted from sketches: name, (quads of sketch_1, outer points, sketch face under each
     operation, operation joins face n of sketch_1 to face n of sketch_2, shape.grid, sketch_1.grid, core, shell) *)
@@ -57,6 +64,7 @@ Definition lofted_ok (e : lofted_entry) : bool :=
       && forallb (fun o => negb (has_outer_point outer (quad_of quads (nth o bottom 0)))) c
       && (length joined =? n) && forallb (fun b : bool => b) joined
       && list_eqb (list_eqb Nat.eqb) (map (map (fun o => nth o bottom 0)) grid) sgrid
+      && rings_ok grid c shell
   end.
 
 (** ** round shapes without sketches: name, (number of operations, has a side on the outer surface,
@@ -72,6 +80,7 @@ Definition solid_ok (e : solid_entry) : bool :=
       && forallb (fun o => nth o touch false) shell
       && forallb (fun o => negb (nth o anyp true)) c
       && perm_of_range n (concat g)
+      && rings_ok g c shell
   | _, _ => false
   end.
 
